@@ -159,10 +159,10 @@ def run(ctx):
         c = d['case']
         inst, s = c['inst'], c['settings']
         key = common.canon_json([inst, s])
-        if key in seen or inst['nuser'] == 0 or (inst['X'] is not None and inst['X']['N'] != inst['n']):
+        if key in seen or (inst['X'] is not None and inst['X']['N'] != inst['n']):
             continue
         seen.add(key)
-        for k in range(16):
+        for k in range(16 if inst['nuser'] else 0):
             direction = None if k == 0 else [rng.choice([-1.0, 1.0, 0.5, -2.0, 0.0]) for _ in range(inst['nuser'])]
             try:
                 why = audit_instance(ctx, rng, inst, s, direction)
@@ -176,7 +176,7 @@ def run(ctx):
         if not ctx.violations:
             # the same exponents and settings with "-gamma" at one index and positive constants elsewhere, gamma maximised
             m_ = len(inst['alpha'])
-            for i in range(m_):
+            for i in [j for j in range(m_) for _ in range(3)]:
                 var = dict(inst, nuser=1, c=[{'off': common.frac_str(F(rng.choice([1, 100, 2]), rng.choice([1, 100]))), 'co': []} for _ in range(m_)])
                 var['c'][i] = {'off': '0', 'co': [[0, '-1']]}
                 try:
